@@ -300,6 +300,18 @@ func (f *Frame) callByContract(v ssa.Value, in ssa.Instruction, sig *types.Signa
 	}
 	// let bindings
 	f.bindLets(env, c)
+	// package invariants hold in every state after initialisation (nothing writes the variables
+	// they mention: the `stable` census), so they may be recalled wherever a precondition needs
+	// them - after a loop or a call has havoced the heap, not only at the entry of the lint
+	if u.sweep && u.safety && len(c.ClausesOf("requires")) > 0 {
+		if u.pkgInvAt == nil {
+			u.pkgInvAt = map[*Heap]bool{}
+		}
+		if !u.pkgInvAt[st.heap] {
+			u.pkgInvAt[st.heap] = true
+			u.assumePkgInvs(st.heap, u.Prop)
+		}
+	}
 	// preconditions
 	for _, cl := range c.ClausesOf("requires") {
 		t, err := env.evalBool(cl.Text)
@@ -1404,6 +1416,11 @@ func (f *Frame) enterLoop(b *ssa.BasicBlock, ls *loopState, preds []*ssa.BasicBl
 			} else if step < 0 {
 				u.emit("(assert (<= " + x + " " + ls.phiEntry[phi].T + "))")
 			}
+			// every back edge moves it by the same constant c: its distance from the entry value
+			// is a multiple of c (`for i := n-1; i >= 0; i -= 4`)
+			if _, stride, ok := inductionStride(phi, b); ok && stride > 1 {
+				u.emit(fmt.Sprintf("(assert (= (mod (- %s %s) %d) 0))", x, ls.phiEntry[phi].T, stride))
+			}
 		}
 		f.vals[phi] = Val{T: x, Typ: phi.Type()}
 		u.wellFormedLoaded(heap, x, phi.Type())
@@ -2017,6 +2034,44 @@ func (f *Frame) freshOrNilSlice(phi *ssa.Phi) bool {
 
 // inductionStep: phi is an integer loop variable whose every back-edge value is phi itself or
 // phi plus/minus a non-negative constant; the sign of the steps (all >= 0: +1, all <= 0: -1).
+// inductionStride: like inductionStep, and the common absolute step when every back edge adds the
+// same constant (0 otherwise).
+func inductionStride(phi *ssa.Phi, header *ssa.BasicBlock) (sign int, stride int64, ok bool) {
+	sign, ok = inductionStep(phi, header)
+	if !ok {
+		return 0, 0, false
+	}
+	stride = -1
+	for i, e := range phi.Edges {
+		if !header.Dominates(header.Preds[i]) || e == ssa.Value(phi) {
+			if header.Dominates(header.Preds[i]) && e == ssa.Value(phi) {
+				return sign, 0, true // an iteration that leaves the variable alone
+			}
+			continue
+		}
+		bo := e.(*ssa.BinOp)
+		var c *ssa.Const
+		if bo.X == ssa.Value(phi) {
+			c, _ = bo.Y.(*ssa.Const)
+		} else {
+			c, _ = bo.X.(*ssa.Const)
+		}
+		k, _ := constant.Int64Val(c.Value)
+		if k < 0 {
+			k = -k
+		}
+		if stride == -1 {
+			stride = k
+		} else if stride != k {
+			return sign, 0, true
+		}
+	}
+	if stride < 0 {
+		stride = 0
+	}
+	return sign, stride, true
+}
+
 func inductionStep(phi *ssa.Phi, header *ssa.BasicBlock) (int, bool) {
 	bt, ok := phi.Type().Underlying().(*types.Basic)
 	if !ok || bt.Info()&types.IsInteger == 0 {
